@@ -1,4 +1,5 @@
 import Tahoe.Codec.Lemmas
+import Tahoe.Codec.Instances
 /-! C36 — erasure coding recovers from any k blocks (property theorems). -/
 namespace Tahoe.C36
 open Tahoe.Codec
@@ -17,6 +18,17 @@ theorem any_k_blocks_decode (c : Code) (k n : Nat) (hk : 0 < k) (hmds : MDS c k 
         (length_chop _ _ _) (uniform_chop _ _ _) supplied hlen hnd hgen]
   rw [join_chop k _ seg (by rw [Nat.mul_comm]; exact le_divCeil_mul _ _ hk)]
   exact take_padTo _ _
+
+/-- non-vacuity: the hypotheses are met by proved codes — 2-of-3 XOR parity on a 5-byte segment
+(padded to 6), supplied out of order with one block more than needed; 1-of-4 replication; 3-of-3 -/
+example : decodeSegment (xorParity 2) 2 5 [(2, [5, 7, 3]), (0, [1, 2, 3]), (1, [4, 5, 0])] = [1, 2, 3, 4, 5] :=
+  any_k_blocks_decode (xorParity 2) 2 3 (by decide) xorParity2_mds [1, 2, 3, 4, 5] _ (by decide) (by decide)
+    (by decide)
+example : decodeSegment (replication 4) 1 2 [(3, [7, 9])] = [7, 9] :=
+  any_k_blocks_decode (replication 4) 1 4 (by decide) (replication_mds 4) [7, 9] _ (by decide) (by decide) (by decide)
+example : decodeSegment (identityCode 3) 3 4 [(2, [0, 0]), (0, [1, 2]), (1, [3, 4])] = [1, 2, 3, 4] :=
+  any_k_blocks_decode (identityCode 3) 3 3 (by decide) (identity_mds 3) [1, 2, 3, 4] _ (by decide) (by decide)
+    (by decide)
 
 /-- **Immutable path** (`Encoder._encode_segment` → `DownloadNode._decode_blocks`), full and tail
 segments: every call succeeds and any `k` produced blocks give back exactly the bytes read. -/
@@ -174,5 +186,69 @@ theorem mutable_any_k_blocks_decode (fec : Nat → Nat → Code) (seg0 datalengt
       rw [decDecode_ok fec d.segDecoder _ _ (by rw [htk1, htk2]) (by rw [htk1, sk]), sk, sn, hdec]
       simp only [hjoin, dseg, ← hlen]
       rw [take_padTo]
+
+/-! ### sizes -/
+
+/-- padded tail size: a multiple of `k`, at least the tail, less than `k` more; and the three
+block-size formulas in the code agree on it (`CRSEncoder`: `div_ceil(padded, k)`, downloader:
+`padded // k`, mutable publish: `div_ceil(tail, k)`) -/
+theorem tail_padding_sizes (t k : Nat) (hk : 0 < k) :
+    nextMultiple t k % k = 0 ∧ t ≤ nextMultiple t k ∧ nextMultiple t k < t + k ∧
+    divCeil (nextMultiple t k) k = divCeil t k ∧ nextMultiple t k / k = divCeil t k ∧
+    k * divCeil t k = nextMultiple t k :=
+  ⟨nextMultiple_mod t k, le_divCeil_mul t k hk, divCeil_mul_lt t k hk, divCeil_nextMultiple t k hk,
+   nextMultiple_div t k hk, Nat.mul_comm _ _⟩
+
+example : nextMultiple 10 3 = 12 ∧ divCeil 10 3 = 4 ∧ padSize 10 3 = 2 := by decide
+
+/-- for a full segment (`segment_size % k == 0`, asserted by the uploader) the encoder's block size
+`div_ceil` equals the downloader's `segment_size // k`, and no padding is added -/
+theorem full_segment_sizes (s k : Nat) (hdiv : s % k = 0) :
+    divCeil s k = s / k ∧ nextMultiple s k = s ∧ padSize s k = 0 :=
+  ⟨divCeil_eq_of_dvd hdiv, nextMultiple_of_dvd hdiv, by simp [padSize, hdiv]⟩
+
+example : divCeil 12 3 = 12 / 3 := (full_segment_sizes 12 3 (by decide)).1
+
+/-- the `k` input pieces: exactly `k` of them, each `⌈len/k⌉` bytes, and joined they are the
+segment followed by zero bytes only; trimming to the segment length removes exactly the padding -/
+theorem pieces_are_padded_segment (k : Nat) (hk : 0 < k) (seg : Block) :
+    (chop k (divCeil seg.length k) seg).length = k ∧
+    Uniform (divCeil seg.length k) (chop k (divCeil seg.length k) seg) ∧
+    join (chop k (divCeil seg.length k) seg)
+      = seg ++ List.replicate (k * divCeil seg.length k - seg.length) 0 ∧
+    (join (chop k (divCeil seg.length k) seg)).take seg.length = seg := by
+  have h := join_chop k _ seg (by rw [Nat.mul_comm]; exact le_divCeil_mul _ _ hk)
+  refine ⟨length_chop _ _ _, uniform_chop _ _ _, h, ?_⟩
+  rw [h]; exact take_padTo _ _
+
+example : chop 3 2 [1, 2, 3, 4] = [[1, 2], [3, 4], [0, 0]] := by decide
+
+/-- the immutable `_gather_data` (pad the read to `k * ps`, then slice) and the mutable
+`_encode_segment` (slice, pad each piece) produce the same pieces from a full-length read -/
+theorem gather_eq_chop (k ps : Nat) (hps : 0 < ps) (P : Block) (hP : P.length = k * ps) :
+    gatherData k ps false P = .ok (chop k ps P) := by
+  rw [gatherData_ok k ps false P hps (by omega) (Or.inr hP), padTo_of_le _ _ (by omega)]
+
+example : gatherData 2 2 true [9, 8, 7] = .ok [[9, 8], [7, 0]] := by decide
+
+/-! ### the concrete codes -/
+
+/-- Named assumption: zfec's code (as transcribed in `rs256`) is MDS for every `1 ≤ k ≤ n ≤ 256`.
+Not proved here (zfec is a C extension outside /repo; the transcription is compared byte for byte
+with zfec by the harness, and the law is sampled on every checked case). -/
+def RS256_MDS : Prop := ∀ k n : Nat, 1 ≤ k → k ≤ n → n ≤ 256 → MDS (rs256 k n) k n
+
+/-- C36 for the Reed–Solomon code the repo actually uses, under the named assumption. -/
+theorem rs256_any_k_blocks_decode (h : RS256_MDS) (k n : Nat) (hk : 1 ≤ k) (hkn : k ≤ n) (hn : n ≤ 256)
+    (seg : Block) (supplied : List (Nat × Block)) (hlen : k ≤ supplied.length)
+    (hnd : (supplied.map (·.1)).Nodup)
+    (hgen : ∀ p ∈ supplied, (encodeSegment (rs256 k n) k seg)[p.1]? = some p.2) :
+    decodeSegment (rs256 k n) k seg.length supplied = seg :=
+  any_k_blocks_decode (rs256 k n) k n hk (h k n hk hkn hn) seg supplied hlen hnd hgen
+
+/-- the assumption is satisfiable by *some* code for the shapes proved: the instances -/
+theorem mds_instances :
+    (∀ n, MDS (replication n) 1 n) ∧ (∀ k, MDS (identityCode k) k k) ∧ MDS (xorParity 2) 2 3 :=
+  ⟨replication_mds, identity_mds, xorParity2_mds⟩
 
 end Tahoe.C36
